@@ -19,7 +19,8 @@ type ProxyCase struct {
 	AtoB    [][]byte `json:"atob"` // chunks written by A
 	BtoA    [][]byte `json:"btoa"` // chunks written by B
 	ReadBuf int      `json:"readbuf"`
-	Closer  string   `json:"closer"` // which end closes first: A | B
+	Closer  string   `json:"closer"`            // which end closes first: A | B
+	TailEOF bool     `json:"taileof,omitempty"` // the A side is a stream that returns its last bytes together with io.EOF
 	NilCb   bool     `json:"nilcb,omitempty"`
 }
 
@@ -31,7 +32,103 @@ func genProxy(t *rapid.T) ProxyCase {
 		ReadBuf: rapid.IntRange(1, 64).Draw(t, "readbuf"),
 		Closer:  rapid.SampledFrom([]string{"A", "B"}).Draw(t, "closer"),
 		NilCb:   rapid.IntRange(0, 9).Draw(t, "nilcb") == 0,
+		TailEOF: rapid.IntRange(0, 3).Draw(t, "taileof") == 0,
 	}
+}
+
+// tailReader is a stream whose Read hands out its last bytes together with io.EOF
+// (allowed by the io.Reader contract; files and TLS connections do it).
+type tailReader struct {
+	mu     sync.Mutex
+	chunks [][]byte
+	closes atomic.Int32
+	wrote  int
+}
+
+func (r *tailReader) Read(p []byte) (int, error) {
+	r.mu.Lock()
+	defer r.mu.Unlock()
+	for len(r.chunks) > 0 && len(r.chunks[0]) == 0 {
+		r.chunks = r.chunks[1:]
+	}
+	if len(r.chunks) == 0 {
+		return 0, io.EOF
+	}
+	n := copy(p, r.chunks[0])
+	r.chunks[0] = r.chunks[0][n:]
+	rest := 0
+	for _, c := range r.chunks {
+		rest += len(c)
+	}
+	if rest == 0 {
+		return n, io.EOF
+	}
+	return n, nil
+}
+
+func (r *tailReader) Write(p []byte) (int, error) {
+	if r.closes.Load() > 0 {
+		return 0, io.ErrClosedPipe
+	}
+	r.mu.Lock()
+	r.wrote += len(p)
+	r.mu.Unlock()
+	return len(p), nil
+}
+
+func (r *tailReader) Close() error { r.closes.Add(1); return nil }
+
+// checkProxyTail: the A side delivers its last bytes together with io.EOF.
+func checkProxyTail(t *testing.T, v *ev.Verdict, c ProxyCase, fail func(sig, f string, a ...any)) {
+	var bubbleErr any
+	func() {
+		defer func() { bubbleErr = recover() }()
+		synctest.Test(t, func(t *testing.T) {
+			var chunks [][]byte
+			for _, ch := range c.AtoB {
+				chunks = append(chunks, append([]byte(nil), ch...))
+			}
+			src := &tailReader{chunks: chunks}
+			b1, b2 := net.Pipe()
+			p2 := &countConn{Conn: b1}
+			var cbs atomic.Int32
+			ioproxy.ProxyStreams(src, p2, func() { cbs.Add(1) })
+			var got bytes.Buffer
+			var done atomic.Bool
+			go func() {
+				b := make([]byte, c.ReadBuf)
+				for {
+					n, err := b2.Read(b)
+					got.Write(b[:n])
+					if err != nil {
+						done.Store(true)
+						return
+					}
+				}
+			}()
+			synctest.Wait()
+			want := bytes.Join(c.AtoB, nil)
+			if !done.Load() {
+				fail("ioproxy:peer-not-notified", "the A side reported EOF but B's reader was not told")
+			} else if !bytes.Equal(got.Bytes(), want) {
+				fail("ioproxy:a-to-b", "B received %d bytes, the A side delivered %d (its last Read returned data together with io.EOF; first difference at %d)", got.Len(), len(want), firstDiff(got.Bytes(), want))
+			}
+			if src.closes.Load() == 0 || p2.closes.Load() == 0 {
+				fail("ioproxy:not-closed", "after EOF on the A side: closes A=%d B-side=%d, want both closed", src.closes.Load(), p2.closes.Load())
+			}
+			if n := cbs.Load(); n != 2 {
+				fail("ioproxy:callback-count", "callback ran %d times after EOF, want exactly 2", n)
+			}
+			b2.Close()
+		})
+	}()
+	if bubbleErr != nil && len(v.Viol) == 0 {
+		fail("ioproxy:leak", "goroutines left behind: %v", bubbleErr)
+	}
+	if len(c.AtoB) > 0 {
+		v.SetNT(P)
+	}
+	v.Class("last-bytes-delivered-with-eof")
 }
 
 // countConn counts Close calls on a net.Conn.
@@ -51,6 +148,10 @@ func checkProxy(t *testing.T, v *ev.Verdict, c ProxyCase) {
 		mu.Lock()
 		v.Add(P, sig, f, a...)
 		mu.Unlock()
+	}
+	if c.TailEOF {
+		checkProxyTail(t, v, c, fail)
+		return
 	}
 	var bubbleErr any
 	func() {
